@@ -6,6 +6,7 @@ import (
 	"fmt"
 	"net/http"
 	"reflect"
+	"strings"
 	"sync"
 	"testing"
 	"time"
@@ -362,7 +363,7 @@ func gen(t *rapid.T) Case {
 	if rapid.IntRange(0, 3).Draw(t, "plainret") == 0 {
 		c.Returns = prog.ErrSpec{Plain: true, Msg: rapid.SampledFrom([]string{"recovered", "", "ünï %"}).Draw(t, "retmsg")}
 	} else {
-		c.Returns = prog.ErrSpec{Code: uint32(rapid.IntRange(1, 16).Draw(t, "retcode")), Msg: rapid.SampledFrom([]string{"recovered", "", "ünï %"}).Draw(t, "retmsg")}
+		c.Returns = prog.ErrSpec{Code: uint32(rapid.IntRange(1, 16).Draw(t, "retcode")), Msg: rapid.SampledFrom([]string{"recovered", "", "ünï %", "recovered, with a stack trace: " + strings.Repeat("goroutine 1 [running]: main.handler(...) ", 60)}).Draw(t, "retmsg")}
 		if rapid.Bool().Draw(t, "retdetail") {
 			c.Returns.Details = []prog.DetailSpec{{Kind: "ping", N: 3, S: "d"}}
 		}
